@@ -149,18 +149,27 @@ theorem fp_secret_eq_public (w : Bytes) (sk : SecKey) (h : parseSecBody w = some
       parsePubBody pb = some (sk.publicPart, []) := by
   refine ⟨fun H => ⟨rfl, rfl⟩, fun pb hs hpos => ?_⟩
   unfold parseSecBody at h
-  cases hp : parseBody true w with
-  | none => simp [hp] at h
+  cases hc : parseBodyCur true w with
+  | none => simp [hc] at h
   | some p =>
     obtain ⟨k, rest⟩ := p
-    simp only [hp, Option.some.injEq] at h
+    simp only [hc, Option.some.injEq] at h
     subst h
+    have hp := parseBodyCur_some true w (k, rest) hc
     have hw := parseBody_wf true w k rest hp
-    have hw' : WF false k :=
-      { hw with len6 := fun h6 => ⟨(hw.len6 h6).1, fun _ => hpos h6⟩ }
-    have := parseBody_serBody false k pb [] hw' hs (fun _ _ => rfl)
+    have := parseBody_serBody true k pb [] hw hs (fun _ _ => rfl)
     rw [List.append_nil] at this
+    have hx := v6CountExact_serBody k pb [] hs hpos
+    rw [List.append_nil] at hx
+    unfold parsePubBody
+    rw [parseBodyCur_eq false pb hx]
     exact this
+
+/-- after repair D15d the public-key parser and the secret-key parser read the public part of a key
+packet alike, whatever the octets (before, an over-stated v6 octet count was accepted by the public
+parser only, a zero count by the secret parser only) -/
+theorem key_parsers_agree (w : Bytes) : parseBodyCur false w = parseBodyCur true w :=
+  parseBodyCur_strict_irrelevant w
 
 /-- **leading-zero encodings, whole keys (v2–v4 layout shown for v4).**  A key packet whose MPIs
 are written with any numbers of leading zero octets (and any declared bit counts that round to the
